@@ -104,8 +104,9 @@ const (
 	RCONT
 	// SCONT switches context to src0.
 	SCONT
-	// YIELD moves src0 in tmp, swaps the current context with
-	// its parent, and pushes src0 in the new context.
+	// YIELD moves src0 in tmp, pushes it in the current context if src1 is not
+	// 0, swaps the current context with its parent, and pushes src0 in the new
+	// context.
 	YIELD
 
 	READ  // READ builtin
